@@ -40,7 +40,8 @@ def check_deck(deck, seed, flags=(), lattice=(), n_points=60, want=('C01', 'C08'
                 loc = deck.locate(pt)
             except Exception:
                 loc = None
-            if isinstance(loc, list) and loc and loc[0] in deck.cells and deck.cells[loc[0]].imp != 0:
+            if isinstance(loc, list) and loc and loc[0] in deck.cells and deck.cells[loc[0]].imp != 0 \
+                    and loc[-1] not in ('lattice-universe-0', 'outside-lattice'):
                 alive = True
                 break
         if alive:
